@@ -23,8 +23,8 @@ CHECKS = {
  "C06": ("proptest: alternative setups built through the public decoder; oracle = reported key equality + rejection",
          "Generated registrations; the stolen file is served by setups sharing the OPRF seed but holding a fresh / other server's / the fake key pair; client must fail, same-key control must pass, reported server key must equal the setup key.",
          "Sampling.", "5 C06"),
- "C07": ("proptest histories + exhaustive routing enumeration; oracle = explicit acceptance model",
-         "Per generated history (call order, shared/independent RNGs) over the bounded population of the property, every (request, record, credential id) server session, every response->client and every finalization->server delivery is executed on clones and compared with the matched-conversation model in both directions; session keys pairwise distinct.",
+ "C07": ("proptest histories + exhaustive routing enumeration + generated/compiled adversarial histories (altered messages, mismatching parameters, save/restore) through a provenance model; stateful libFuzzer target history (thorough) + seed-history replay; oracle = explicit acceptance model",
+         "Per generated history (call order, shared/independent RNGs) over the bounded population of the property, every (request, record, credential id) server session, every response->client and every finalization->server delivery is executed on clones and compared with the matched-conversation model in both directions; session keys pairwise distinct. Second part: 6 compiled histories per case of interleaved conversations with one deviation each, judged by provenance of every delivered message.",
          "Routing is exhaustive for the bounded population per history; histories are sampled.", "5 C07"),
  "C08": ("proptest histories (built around two fake attempts for one request and a real login) + libFuzzer target server_start (thorough) + corpus replay; oracle = structural equality with real responses, reference OPRF evaluation, pairwise freshness, client/server rejection",
          "Generated sequences of fake attempts interleaved with real logins on one server tape: fake responses have the real length/structure, the evaluation element equals the reference oprf_key(seed,cred)*request and the real-record one, other fields differ across attempts, client fails with InvalidLoginError as for a wrong password, no finalization completes the fake state.",
@@ -99,8 +99,8 @@ def main():
         "engines": [
             {"name": "vharness", "path": "/verif/harness", "serves_properties": ids,
              "kind_free_text": "Rust crate (stable toolchain): proptest-driven generated search with explicit oracles (RFC reference model, acceptance models, metamorphic/differential relations), per-case bounded enumeration, fault injection (RNG, KSF, external key), shrinking to replay files"},
-            {"name": "vfuzz", "path": "/verif/fuzz", "serves_properties": ["C03", "C04", "C08", "C10", "C11", "C12"],
-             "kind_free_text": "cargo-fuzz / libFuzzer targets (nightly) decoders, login_response, server_finish, server_start; oracles live in the harness library, so the committed corpus is replayed by the stable binary in the quick tier and crashes are confirmed on the production profile"},
+            {"name": "vfuzz", "path": "/verif/fuzz", "serves_properties": ["C03", "C04", "C07", "C08", "C10", "C11", "C12"],
+             "kind_free_text": "cargo-fuzz / libFuzzer targets (nightly) decoders, login_response, server_finish, server_start, history (stateful); oracles live in the harness library, so the committed corpus is replayed by the stable binary in the quick tier and crashes are confirmed on the production profile"},
         ],
         "checks": checks,
         "notes": "Genuine defects found and repaired in /repo by 'fix:' commits are listed in /verif/known_findings.json (status fixed; they suppress nothing). Exit codes: 0 held, 1 VIOLATION, 2 INCONCLUSIVE (build failure, watchdog, oracle self-test failure).",
